@@ -182,6 +182,35 @@ def schemaEntries (subset : Option (List String)) : List Param → Except Err (L
       | .error e => .error e
       | .ok r => .ok ((p.name, s) :: r)
 
+/-! ### `safe=True` -/
+
+/-- the `*_schema` methods that raise UnsafeserializableException under `safe=True`:
+`dict_schema` always, `list_schema` without an item type, `selector_schema` when the type lookup of
+an object fails (the `except` branch that returns `{}` otherwise).  Nothing else reads `safe`. -/
+def PCfg.safeRefuses : PCfg → Bool
+  | .dict => true
+  | .list none _ _ => true
+  | .selector objs => (literalTypes objs).isNone
+  | _ => false
+
+/-- src: `Parameter.schema(safe=True)` -/
+def Param.schemaSafe (p : Param) : Except Err Json :=
+  if p.cfg.safeRefuses then .error .unsafeSer else p.schema
+
+def Param.schemaEntrySafe (p : Param) : Except Err Json :=
+  if p.cfg.safeRefuses then .error .unsafeSer else p.schemaEntry
+
+/-- src: serializer.py JSONSerialization.schema with `safe=True` — the loop stops at the first refusal -/
+def schemaEntriesSafe (subset : Option (List String)) : List Param → Except Err (List (String × Json))
+  | [] => .ok []
+  | p :: rest =>
+    if !inSubset subset p.name then schemaEntriesSafe subset rest else
+    match p.schemaEntrySafe with
+    | .error e => .error e
+    | .ok s => match schemaEntriesSafe subset rest with
+      | .error e => .error e
+      | .ok r => .ok ((p.name, s) :: r)
+
 /-- how the documentation tells users to validate:
 `{"type": "object", "properties": Cls.param.schema()}` -/
 def objectSchema (entries : List (String × Json)) : Json :=
